@@ -299,6 +299,87 @@ def _sequential_exec(ir):
     return True, "ok"
 
 
+# ------------------------------------------------------------------------------------------
+# from equations to the incidence matrix: every Sequential model of 3 equations over {none, zero shift, lag, zero shift + lag} usages
+# ------------------------------------------------------------------------------------------
+_USAGE = ("none", "zero", "lag", "both")
+
+
+def _model_from_usage(states, own):
+    """states[(i, j)] in _USAGE for i != j (how equation i uses x_j), own[i] = equation i has a lag of its own left-hand variable"""
+    n = len(own)
+    lines = []
+    for i in range(n):
+        rhs = ["0.5"]
+        if own[i]:
+            rhs.append(f"0.25*x{i}[-1]")
+        for j in range(n):
+            if j == i:
+                continue
+            st = states[(i, j)]
+            if st in ("zero", "both"):
+                rhs.append(f"0.5*x{j}")
+            if st in ("lag", "both"):
+                rhs.append(f"0.125*x{j}[-1]")
+        lines.append(f"  x{i} = " + " + ".join(rhs) + ";")
+    return "!equations\n" + "\n".join(lines) + "\n"
+
+
+def _usage_verdict(ir, states, own):
+    """(ok, message) for one model: incidence matrix = zero-shift usage; sequentialize returns a valid order, or raises and leaves the model
+    untouched exactly when no order exists"""
+    n = len(own)
+    D = [[(i == j) or states[(i, j)] in ("zero", "both") for j in range(n)] for i in range(n)]
+    m = ir.Sequential.from_string(_model_from_usage(states, own))
+    im = np.asarray(m.incidence_matrix, dtype=bool)
+    if im.shape != (n, n) or any(bool(im[i, j]) != D[i][j] for i in range(n) for j in range(n)):
+        return False, f"incidence matrix {im.astype(int).tolist()} differs from the zero-shift usage {[[int(v) for v in r] for r in D]}"
+    before = [e.lhs_name for e in m.iter_equations()]
+    valid = lambda order: all((j == e) or (not D[e][j]) or (j in order[:k]) for k, e in enumerate(order) for j in range(n))
+    exists = any(valid(p) for p in itertools.permutations(range(n)))
+    try:
+        got = tuple(int(e) for e in m.sequentialize())
+        raised = False
+    except Exception:
+        raised = True
+    after = [e.lhs_name for e in m.iter_equations()]
+    if raised:
+        if exists:
+            return False, "sequentialize raises although a sequential order exists"
+        if after != before:
+            return False, f"sequentialize raised but changed the model: {before} -> {after}"
+        return True, "ok"
+    if not exists:
+        return False, f"sequentialize returns {got} on a model without a sequential order"
+    if sorted(got) != list(range(n)) or not valid(got):
+        return False, f"sequentialize returns {got}: a left-hand variable is used at zero shift before it is determined"
+    if after != [f"x{e}" for e in got]:
+        return False, f"equations are now {after}, returned order {got}"
+    return True, "ok"
+
+
+def check_usage_models(run, ir, tier):
+    """executed (no solver: the program text is enumerated, there is no value dimension): all 3-equation models"""
+    key = "Sequential.incidence_matrix + sequentialize on every 3-equation usage pattern (executed)"
+    n = 3
+    pairs = [(i, j) for i in range(n) for j in range(n) if i != j]
+    owns = list(itertools.product((False, True), repeat=n)) if tier == "thorough" else [(False,) * n, (True,) * n, (True, False, False)]
+    count = 0
+    for own in owns:
+        for combo in itertools.product(_USAGE, repeat=len(pairs)):
+            states = dict(zip(pairs, combo))
+            count += 1
+            ok, msg = _usage_verdict(ir, states, own)
+            if not ok:
+                run.extra["usage_models_executed"] = count
+                run.counterexample(key, "sequential:incidence", msg + f" [model: {_model_from_usage(states, own)!r}]"[:300],
+                                   dict(kind="usage_model", states=[[i, j, st] for (i, j), st in states.items()], own=list(own)))
+                return
+    run.extra["usage_models_executed"] = count
+    run.extra["executed_obligations"] = run.extra.get("executed_obligations", 0) + 1
+    run.ok(key, nontrivial=False)
+
+
 def main(run):
     ir = load_irispie()
     from irispie.incidences import blazer
@@ -310,6 +391,9 @@ def main(run):
     run.bounds["paths"] = "path bound 400 (n<=3) / 70000 (n=4); hitting the bound is reported as inconclusive"
     run.assumptions += ["a perfect matching exists (disjunction over the n! permutations)", "numpy sum/where/delete/argsort/flip act on the symbolic objects; "
                         "every comparison is a recorded concolic branch"]
+    run.bounds["usage_models"] = ("executed: every Sequential model of 3 equations in which equation i uses x_j not at all / at zero shift / at a lag / at both, with own lags "
+                                  "(3 patterns quick, all 8 thorough): 12288 / 32768 models; incidence matrix compared with the zero-shift usage, sequentialize outcome checked")
+    run.functions_encoded += ["equations.calculate_incidence_matrix, sequentials.main.Sequential.incidence_matrix (executed on the enumerated models)"]
     run.outside += ["n > 4 (the property's sampled larger cases)", "_dulmage_mendelsohn (unused by blaze)"]
     quick = run.tier == "quick"
     sizes = (1, 2, 3) if quick else (1, 2, 3, 4)
@@ -335,12 +419,20 @@ def main(run):
         check_sequential_model(run, ir)
     except Exception as exc:
         run.error("sequential_exec", exc)
+    try:
+        check_usage_models(run, ir, run.tier)
+    except Exception as exc:
+        run.error("usage_models", exc)
     run.extra["exhaustive"] = True
 
 
 def replay(case):
     ir = load_irispie()
     from irispie.incidences import blazer
+    if case["kind"] == "usage_model":
+        states = {(i, j): st for i, j, st in case["states"]}
+        ok, msg = _usage_verdict(ir, states, tuple(case["own"]))
+        return (not ok), msg
     if case["kind"] == "sequential_exec":
         ok, msg = _sequential_exec(ir)
         return (not ok), msg
